@@ -365,4 +365,10 @@ def r4(F, R):
     R.floor(7)
 
 
-RULES = [("R1", r1, None), ("R2", r2, None), ("R3", r3, None), ("R4", r4, None)]
+def r5_clone(F, R):
+    """Parser values and expansion errors are cloned when handed to the runner / writers: a clone keeps every field."""
+    n = roles.check_clone_faithful_table(F, R, r"^feature::|^parser::", "clone-faithful")
+    R.floor(3)
+
+
+RULES = [("R1", r1, None), ("R2", r2, None), ("R3", r3, None), ("R4", r4, None), ("R5", r5_clone, None)]
